@@ -63,10 +63,19 @@ class IsoTpStateMachine:
             frame_type, telegram_len = bitstruct.unpack("u4u4", data)
             assert isinstance(telegram_len, int)
 
-            self.on_single_frame(telegram_idx, data[1:1 + telegram_len])
-            self.on_telegram_complete(telegram_idx, data[1:1 + telegram_len])
+            payload_offset = 1
+            if telegram_len == 0 and len(data) > 8:
+                # CAN FD single frame with more than 7 payload bytes:
+                # the length is specified by the second byte
+                telegram_len = data[1]
+                payload_offset = 2
 
-            yield (rx_id, data[1:1 + telegram_len])
+            telegram_payload = data[payload_offset:payload_offset + telegram_len]
+
+            self.on_single_frame(telegram_idx, telegram_payload)
+            self.on_telegram_complete(telegram_idx, telegram_payload)
+
+            yield (rx_id, telegram_payload)
 
         elif frame_type == IsoTp.FRAME_TYPE_FIRST:
             frame_type, telegram_len = bitstruct.unpack("u4u12", data)
